@@ -164,7 +164,7 @@ def run(tier, seed, replay=None):
                 r = rc.compile_run(rp[k])
                 print('replay %s: compiles=%s errors=%s' % (k, r['ok'], r['errors'][:3]))
         return 0, dict(evaluations=1, distinct_nontrivial=0, obligations=len(gate['theorems']), discharged=len(gate['theorems']), checker_cmd='replay', trusted_base=[]), 0
-    violations, nontrivial = [], set()
+    violations, nontrivial, known_lines = [], set(), set()
     stats = dict(cases=0, programs=0, reference_unavailable=0, reference_rejected=0, reference_table_wrong=0, both_accepted=0, by_kind={}, axis_pairs=0)
     # corpus of fixed acceptance findings
     import os
@@ -172,6 +172,16 @@ def run(tier, seed, replay=None):
     for f in sorted(os.listdir(cdir)) if os.path.isdir(cdir) else []:
         r = rc.compile_run(open(os.path.join(cdir, f)).read())
         stats['programs'] += 1
+        if f.startswith('known_'):
+            # witness of a recorded (not repaired) finding, known_<class>_*.rs: KNOWN-FINDING while it
+            # still fails with the recorded error and known_findings.json lists the class
+            cls = f.split('_')[1].upper()
+            k = next((k for k in cm.load_known() if k['property'] == 'C03' and k['status'] == 'known' and k['class'].upper() == cls), None)
+            if r['ok'] and r.get('run_ok'):
+                continue
+            if k and (not k.get('error_code') or any(k['error_code'] in e for e in r['errors'])):
+                known_lines.add('KNOWN-FINDING: property=C03 %s: %s' % (k['class'], k['what']))
+                continue
         if not (r['ok'] and r.get('run_ok')):
             violations.append(dict(kind='property', request='corpus/C03/' + f, program=open(os.path.join(cdir, f)).read(), errors=r['errors'][:4],
                                    oracle='a corpus program of a fixed acceptance finding no longer compiles: %s' % r['errors'][:2]))
@@ -260,7 +270,7 @@ def run(tier, seed, replay=None):
     stats['axis_pairs'] = len(axes)
     if stats['cases'] and stats['reference_table_wrong'] > max(2, 0.05 * stats['cases']):
         raise cm.HarnessError('the reference encoding disagrees with the shadow-trait oracle on %d cases' % stats['reference_table_wrong'])
-    return finish('C03', tier, seed, gate, cases, stats, nontrivial, violations, set(),
+    return finish('C03', tier, seed, gate, cases, stats, nontrivial, violations, known_lines,
                   rule='generated invocations from the documented features (kinds %s: header templates incl. derived bounded types, several dispatch traits/associated types, parametrised dispatch traits, wildcards, ?Sized inline/where, trait lifetime/type/const arguments with bounds, outlives and omitted defaults, several families, spelling/declaration order/placement) whose blocks are pairwise distinguished on a shared key; three programs per case (macro, hand-written reference encoding, shadow traits); non-trivial = distinct invocation where reference and expansion both compile with equal tables; pairwise feature-axis coverage is counted' % sorted(set(KINDS)),
                   samples=[dict(kind=c.kind, invocation=c.invocation()[:500]) for c in cases[:3]],
                   extra=dict(programs=stats['programs']))
